@@ -613,6 +613,36 @@ def value_cases(draw):
     return {"spec": spec, "xunit": xu, "yunit": yu, "shape": shape, "xs": xs}
 
 
+@st.composite
+def integer_x_cases(draw):
+    """Polynomial (the model whose powers of x can overflow an integer) on integer-typed x."""
+    xu, yu = draw(units_xy())
+    spec = draw(poly_spec())
+    dtype = draw(st.sampled_from(["int64", "int32"]))
+    big = draw(st.integers(1, 4000))
+    n = draw(st.integers(1, 6))
+    xs = [float(draw(st.integers(-big, big))) for _ in range(n)]
+    return {"spec": spec, "xunit": xu, "yunit": yu, "shape": "1d", "xs": xs, "x_dtype": dtype}
+
+
+def check_integer_x(case):
+    import scipp as sc
+
+    spec, xu, yu = case["spec"], case["xunit"], case["yunit"]
+    xs = case["xs"]
+    x = sc.array(dims=["x"], values=np.asarray(xs, dtype=case["x_dtype"]), unit=xu, dtype=case["x_dtype"])
+    model = build_model(spec)
+    got = model(x, **build_params(spec, xu, yu))
+    if got.unit != sc.Unit(yu):
+        raise Violation("unit", f"polynomial on {case['x_dtype']} x: result unit {got.unit!r}, expected {yu}")
+    flat = np.asarray(got.values, dtype=float).reshape(-1)
+    nonzero = compare_values(flat, spec, xs, f"polynomial of degree {len(spec['coeffs']) - 1} on {case['x_dtype']} x")
+    big = max(abs(v) for v in xs)
+    labs = ["x:" + case["x_dtype"], f"degree:{len(spec['coeffs']) - 1}",
+            "x^deg:" + (">int64" if big ** (len(spec["coeffs"]) - 1) > 2**63 else ">int32" if big ** (len(spec["coeffs"]) - 1) > 2**31 else "small")]
+    return labs, nonzero > 0
+
+
 def check_values(case):
     import scipp as sc
 
@@ -987,6 +1017,9 @@ FACETS = [
           quick=(4, 500), thorough=(16, 5000), min_nontrivial=0.5,
           doc="pointwise docstring formula in mpmath; polynomial = sum a_i x^i; composite = left + right; "
               "result unit = y unit, sizes = x sizes"),
+    Facet("integer_x", check_integer_x, strategy=lambda tier: integer_x_cases(),
+          quick=(1, 400), thorough=(8, 2000), min_nontrivial=0.3,
+          doc="polynomial = sum a_i x^i on int32/int64 x whose powers exceed the integer range"),
     Facet("prefix", check_prefix, strategy=lambda tier: prefix_cases(),
           quick=(2, 300), thorough=(16, 2500), min_nontrivial=0.3,
           doc="two prefix assignments and with_prefix give bit-identical values, bounds, guesses, fwhm; "
